@@ -163,6 +163,14 @@ def string_push_str(ctx, args, st):
 @model(r'^<(?:str|String|&str|&String|KString\w*(?:<.*>)?|&KString\w*(?:<.*>)?|kstring::\w+::KString\w*(?:<.*>)?) as PartialEq(?:<[^>]*(?:<.*>)?>)?>::(eq|ne)$')
 def str_eq(ctx, args, st):
     a, b = str_of(st, args[0]), str_of(st, args[1])
+    if a.facts is not None or b.facts is not None:
+        # abstract strings: equal when built from the same parts, otherwise an unconstrained boolean per pair
+        pa = a.facts.get('parts') if a.facts else ('lit', a.concrete())
+        pb = b.facts.get('parts') if b.facts else ('lit', b.concrete())
+        if pa == pb and pa is not None: e = z3.BoolVal(True)
+        else: e = z3.Bool(f'streq[{pa!r}=={pb!r}]')
+        if ctx.callee.endswith('ne'): e = z3.Not(e)
+        return ret(st, Bool(z3.simplify(e)))
     e = chars_eq(a, b)
     if ctx.callee.endswith('ne'): e = z3.Not(e)
     return ret(st, Bool(z3.simplify(e)))
@@ -178,3 +186,14 @@ def str_chars(ctx, args, st):
 @model(r'^<&str as Display>::fmt$|^<str as Display>::fmt$|^<String as Display>::fmt$')
 def str_display(ctx, args, st):
     return None
+
+
+@model(r'^(?:std::string::|alloc::string::)?String::from_utf8$')
+def string_from_utf8(ctx, args, st):
+    v = args[0]
+    if isinstance(v, Ref): v = st.deref_all(v)
+    if isinstance(v, VecV):
+        # bytes written by renderables through io::Write: every chunk is the utf-8 of a Display/str (see C10/C02), so valid
+        if all(isinstance(x, Opaque) for x in v.items):
+            return ret(st, Ok(StrV((), 'String', {'name': 'from_utf8', 'parts': tuple(x.tag for x in v.items)})))
+    raise Unsupported(f'String::from_utf8 of {v!r}')
